@@ -55,9 +55,9 @@ def run_cfg(ctx, rp, tag, cfg, consts, mode, must, max_paths=None):
 def probe_grow(rp):
     rc, out = vlib.run_cmd([rp, "--probe-grow"], timeout=60)
     m = re.search(r"^GROW (\S+)", out, re.M)
-    if rc != 0 or not m or m.group(1) not in ("delete_new", "new_delete"):
+    if rc != 0 or not m:
         raise vlib.MachineryError("cannot determine how reusable_storage::alloc grows: " + out[-500:])
-    return m.group(1)
+    return m.group(1)   # delete_new | new_delete | unknown (neither: the replay will tell)
 
 
 def run(ctx):
@@ -72,7 +72,7 @@ def run(ctx):
     # block first) are correct for one thread; the model follows the order the code uses (constant
     # Fixed).  For two threads only "new block first" is correct -- decided below.
     order = probe_grow(rp)
-    fixed = order == "new_delete"
+    fixed = order != "delete_new"
     FX = "TRUE" if fixed else "FALSE"
     ctx.extra["reusable_storage_grow_order"] = order
 
